@@ -2671,6 +2671,14 @@ func (s *Store) fsmSnapshot() (fSnap raft.FSMSnapshot, retErr error) {
 			s.numFullSnapshotsMetaFail.Add(1)
 			return nil, fmt.Errorf("checkpoint did not succeed during full snapshot")
 		}
+		// A full snapshot starts a new chain. Any WAL file still sitting in the staging
+		// directory (retained after a skipped or failed Persist) was captured from the
+		// database as it was before this point -- possibly a different database, if a
+		// load or boot happened since -- and must never be applied on top of this
+		// snapshot. Everything it holds is already in the database file being snapshotted.
+		if err := os.RemoveAll(s.walStagingDir); err != nil {
+			return nil, fmt.Errorf("failed to remove stale WAL staging directory: %w", err)
+		}
 		streamer, err := snapshot.NewSnapshotStreamer(s.db.Path())
 		if err != nil {
 			return nil, err
@@ -2830,6 +2838,10 @@ func (s *Store) fsmRestore(rc io.ReadCloser) (retErr error) {
 	}
 	if err := s.db.Swap(tmpPath, s.dbConf.FKConstraints, true); err != nil {
 		return fmt.Errorf("error swapping database file: %v", err)
+	}
+	// Any staged WAL file belongs to the database that was just replaced.
+	if err := os.RemoveAll(s.walStagingDir); err != nil {
+		return fmt.Errorf("failed to remove stale WAL staging directory: %w", err)
 	}
 	s.logger.Printf("successfully opened database at %s due to restore", s.db.Path())
 	// Installed SQLite database is safe for fast restarts again.
